@@ -64,6 +64,13 @@ pub fn exec(tag: i64, inp: &[i64]) -> Vec<i64> {
                     o.extend_from_slice(&bytes_of(&r[1]));
                     o.extend_from_slice(&bytes_of(&s[0]));
                     o.extend_from_slice(&bytes_of(&s[1]));
+                    // third-party factories (only from_bytes_unchecked is theirs) get the same bytes
+                    let same = region(|| {
+                        let g: [Getters; 2] = m.to_short_messages();
+                        let t: [Tuple; 2] = m.into();
+                        (0..2).all(|i| bytes_of(&g[i]) == bytes_of(&r[i]) && bytes_of(&t[i]) == bytes_of(&r[i]))
+                    });
+                    o.push(same.map(|b| b as i64).unwrap_or(PANIC));
                     o
                 }
             }
